@@ -520,8 +520,10 @@ def r10(rr, repo):
           pt.args.defaults[[a.arg for a in pt.args.args[len(pt.args.args) - len(pt.args.defaults):]].index(dflt)].value == 'main', mod, pt, key='default-main')
     # the pair-building expression: the comprehension (or helper) under `if mapping:` that is assigned to the topics list
     builds = [n for n in walk_scope(pt) if isinstance(n, ast.Assign) and isinstance(n.value, ast.ListComp) and any(pol and U(t) == 'mapping' for t, pol in q.guards_of(n, stop=pt))]
-    if len(builds) != 1:
-        raise Unresolved(f'{FIL}: parse_topics: cannot identify where the (source, destination) pairs are built ({len(builds)} candidates)')
+    if len(builds) != 1:      # not the one-expression form: decide by evaluating the statements that build the pairs (the table of C03.R20)
+        from .c03 import r20 as c03r20
+        c03r20(rr, repo)
+        return
     comp = builds[0].value
     elt = comp.elt
     svar = U(comp.generators[0].target)
@@ -604,3 +606,11 @@ def r13(rr, repo):
 def r14(rr, repo):
     from .c01 import r11 as c01r11
     c01r11(rr, repo)
+
+
+@rule('C02.R15', "what is delivered for id k is the picture the frame held when id k was sent: with JPEG outputs the wire carries the frame's cached encoding when it has one, so a cached encoding may exist "
+                 "only for pixels that can no longer change - a frame whose image is a writable view of a canvas keeps no JPEG, or every later id would arrive with the picture of the first "
+                 "(shares C09.R9 = C10.R1 - R3)")
+def r15(rr, repo):
+    from .c09 import r9 as c09r9
+    c09r9(rr, repo)
